@@ -852,6 +852,10 @@ fn main() {
                 (B::ltwh(0.0, 0.0, 6.0, 8.0), B::ltwh(6.0, 0.0, 6.0, 8.0)),
                 (B::ltwh(0.0, 0.0, 6.0, 8.0), B::ltwh(10.0, 0.0, 6.0, 8.0)),
                 (B::ltwh(-1.0, -1.0, 2.0, 2.0), B::ltwh(-0.9, -0.9, 2.0, 2.0)),
+                // minimised witness of C08:sh-clip:collinear-edges (fixed by commit 04617aa): same centre and angle,
+                // aspect 3 vs 1: IoU was 0.444 one way, 0.3333 the other (truth 1/3)
+                (B { xc: 0.0, yc: 0.0, angle: Some(-1.3671875), aspect: 3.0, h: 0.140625 }, B { xc: 0.0, yc: 0.0, angle: Some(-1.3671875), aspect: 1.0, h: 0.140625 }),
+                (B { xc: 0.0, yc: 0.0, angle: Some(0.25), aspect: 0.5, h: 1.0 }, B { xc: 0.0, yc: 0.0, angle: Some(0.25), aspect: 1.0, h: 1.0 }),
             ];
             if only.is_none() {
                 for (x, y) in corpus.iter() {
@@ -878,6 +882,13 @@ fn main() {
             if only.is_none() {
                 // corpus: the unit test of bbox_own_areas.rs
                 let c = vec![B::ltwh(0.0, 0.0, 10.0, 10.0), B::ltwh(5.0, 5.0, 10.0, 10.0), B::ltwh(10.0, 10.0, 10.0, 10.0)];
+                eval_set(k, "corpus", &c, &mut rng, true);
+                k += 1;
+                // minimised witness of C15:geo-difference:collinear-edges (geo 0.27 panics; exact shares 0 and 0.5)
+                let c = vec![
+                    B { xc: 0.0, yc: 0.0, angle: Some(0.25), aspect: 0.5, h: 1.0 },
+                    B { xc: 0.0, yc: 0.0, angle: Some(0.25), aspect: 1.0, h: 1.0 },
+                ];
                 eval_set(k, "corpus", &c, &mut rng, true);
                 k += 1;
             }
